@@ -179,9 +179,29 @@ func (w *lwalk) errf(pos token.Pos, format string, a ...interface{}) {
 }
 
 func (w *lwalk) block(stmts []ast.Stmt) {
-	for _, s := range stmts {
+	for k, s := range stmts {
 		w.stmt(s)
+		// an `if … { continue / break }` makes everything after it in this
+		// block conditional: inside a repetition the buffer operations that
+		// follow are then not performed for every counted element
+		if ifs, ok := s.(*ast.IfStmt); ok && ifs.Else == nil && endsInBranch(ifs.Body) && k+1 < len(stmts) {
+			rest := &lwalk{x: w.x, info: w.info, fn: w.fn, lenVars: w.lenVars}
+			rest.block(stmts[k+1:])
+			if len(rest.out) > 0 {
+				w.out = append(w.out, LNode{Kind: "opt", Body: rest.out})
+			}
+			return
+		}
 	}
+}
+
+// endsInBranch: the block's last statement is continue or break.
+func endsInBranch(b *ast.BlockStmt) bool {
+	if b == nil || len(b.List) == 0 {
+		return false
+	}
+	br, ok := b.List[len(b.List)-1].(*ast.BranchStmt)
+	return ok && (br.Tok == token.CONTINUE || br.Tok == token.BREAK)
 }
 
 func (w *lwalk) stmt(s ast.Stmt) {
